@@ -836,7 +836,12 @@ class Interp:
         for k in e.keywords:
             kw[k.arg] = self.expr(k.value, env)
         if fn in self.overrides and isinstance(self.overrides[fn], _PyCall) and fn.split(".")[0] not in env:
-            return self.overrides[fn].fn(*vals, **kw)  # a stub given by the rule wins over the built-in models
+            try:
+                return self.overrides[fn].fn(*vals, **kw)  # a stub given by the rule wins over the built-in models
+            except (Raised, AnalysisError):
+                raise
+            except (TypeError, ValueError, KeyError, IndexError, ZeroDivisionError, AttributeError) as ex:
+                raise Raised(f"{type(ex).__name__}: {str(ex)[:60]}")
         if fn == "len":
             if isinstance(vals[0], Node):
                 raise AnalysisError("len of node")
@@ -954,7 +959,13 @@ class Interp:
                 env2[p] = v
             return self.expr(f.node.body, env2)
         if isinstance(f, _PyCall):
-            return f.fn(*vals, **kw)
+            try:
+                return f.fn(*vals, **kw)
+            except (Raised, AnalysisError):
+                raise
+            except (TypeError, ValueError, KeyError, IndexError, ZeroDivisionError, AttributeError) as ex:
+                # the modelled library function rejects these arguments, as the real one would
+                raise Raised(f"{type(ex).__name__}: {str(ex)[:60]}")
         if isinstance(f, _Closure):
             return self.call_func(f.node, vals, kw, base_env=f.env)
         if isinstance(f, Node) and isinstance(f.f.get("__call__"), _PyCall):
